@@ -724,7 +724,7 @@ BIG_RULE = (' Large forests: a few histories with thousands of leaves (one block
             'instance shows are validated by TLC (spec/CoreTrace.tla); positions of 400 random slots, proofs of 100 random leaves '
             '(pointer forest = map forest, verified), GetProofSubset with 70 wants in shuffled order against the prover, and a '
             'serialization round trip of the partial forest (node by node, flags included) are compared across implementations.')
-for _p in ('C01', 'C02', 'C05', 'C10', 'C13', 'C14'):
+for _p in ('C01', 'C02', 'C03', 'C05', 'C10', 'C13', 'C14'):
     PLAN[_p]['stages'] = (lambda f: (lambda tier, seed: f(tier, seed) + [drive_big(tier)]))(PLAN[_p]['stages'])
     PLAN[_p]['rule'] += BIG_RULE
     for _t in ('quick', 'thorough'):
